@@ -61,14 +61,57 @@ def budget(tier):
     return 4000 if tier == "quick" else 40000
 
 
+@st.composite
+def st_mat_over_chain(draw, tier):
+    """materialize(chain(doomed leaf, program)) [+ one operation]: the chain-pruning short-cut directly below a
+    materialization, with the pruned operand on either side."""
+    from vf.core.gen import st_unary_node
+    from vf.core.prog import engine_of, schema
+
+    universe, leaves, prog = draw(st_program(cfg(tier)))
+    cols = schema(prog, leaves)
+    eng = engine_of(prog, leaves)
+    i = len(leaves)
+    doomed = (f"L{i}", tuple(sorted(cols, key=lambda t: t.qualified_name)), (), eng, "doomed", (0, 0), "plain")
+    leaves = tuple(leaves) + (doomed,)
+    pair = (("leaf", i), prog) if draw(st.booleans()) else (prog, ("leaf", i))
+    out = ("mat", ("chain",) + pair, "mchain")
+    if draw(st.booleans()):
+        node = draw(st_unary_node(out, cols, universe, ("sel", "slice", "proj", "dedup"), cfg(tier)))
+        out = node or out
+    return (universe, leaves, out)
+
+
 def strategy(tier):
-    return st.tuples(st_program(cfg(tier)), st.integers(1, 3))
+    return st.tuples(st.one_of(st_program(cfg(tier)), st_program(cfg(tier)), st_program(cfg(tier)), st_mat_over_chain(tier)), st.integers(1, 3))
 
 
 def has_iter_join(prog, leaves):
     from vf.core.prog import engine_of
 
     return any(n[0] == "join" and engine_of(n, leaves) != 0 for n in walk(prog))
+
+
+def visited_materializations(tree, had_payload):
+    """Materializations of the input tree that process() must have reached: the walk stops below nodes that already
+    had a payload and below transfers that are statically trivial (their upstream is documented not to be processed)."""
+    from lsst.daf.relation import BinaryOperationRelation, MarkerRelation, Materialization, Transfer, UnaryOperationRelation
+
+    stack = [tree]
+    seen = set()
+    while stack:
+        r = stack.pop()
+        if id(r) in seen or id(r) in had_payload:
+            continue
+        seen.add(id(r))
+        if isinstance(r, Materialization):
+            yield r
+        if isinstance(r, Transfer) and (r.max_rows == 0 or r.is_join_identity):
+            continue
+        if isinstance(r, (UnaryOperationRelation, MarkerRelation)):
+            stack.append(r.target)
+        elif isinstance(r, BinaryOperationRelation):
+            stack.extend([r.rhs, r.lhs])
 
 
 def evaluable_nodes(rel):
@@ -106,6 +149,7 @@ def run_case(case, stats):
             stats.c["build:refused"] += 1
             return
         tree = rels[id(prog)]
+        had_payload = {id(n) for n in lib_nodes(tree) if getattr(n, "payload", None) is not None}
         before = fingerprint(tree, marker_payloads=False)
         proc = make_processor(env)
         ctx = f"program {fmt(prog, leaves)}; tree {tree}"
@@ -127,6 +171,20 @@ def run_case(case, stats):
             after = fingerprint(tree, marker_payloads=False)
             if after != before:
                 raise Violation("input-tree-changed", f"fingerprint of the tree passed to process() changed (call #{call}); {ctx}")
+            for n in visited_materializations(tree, had_payload):
+                if n.payload is None:
+                    raise Violation(
+                        "materialization-without-payload",
+                        f"materialization {n.name!r} of the input tree was processed but has no payload after process() call #{call}; {ctx}",
+                        call=call,
+                    )
+            for n in evaluable_nodes(result):
+                if isinstance(n, Materialization) and n.payload is None:
+                    raise Violation(
+                        "materialization-without-payload",
+                        f"materialization {n.name!r} of the returned tree has no payload after process() call #{call}; returned {str(result)[:300]}; {ctx}",
+                        call=call,
+                    )
             for n in lib_nodes(tree):
                 if isinstance(n, Transfer) and n.payload is not None:
                     raise Violation("input-transfer-gained-payload", f"transfer {str(n)[:200]} of the input tree has a payload after process(); {ctx}")
@@ -176,4 +234,13 @@ def describe(case):
 
 
 def attribute(case, v):
+    """D10 (see C08): the SQL engine accepted a projection dropping a column that a sort still needs; re-applying the
+    operations in Processor.process then fails on the ill-formed tree."""
+    from vf.core.known import TRIGGERS
+
+    prog = case[0][2]
+    sig = str(v.extra.get("sig", ""))
+    if v.kind in ("process-raised", "processed-tree-not-executable") and TRIGGERS["D10"](prog):
+        if sig.startswith("ColumnError@_sort.py") or sig.startswith("KeyError@_engine.py:convert_column_expression"):
+            return "D10"
     return None
